@@ -474,6 +474,20 @@ def main(x: int) -> int:\n    if x:\n        if x:\n            if x:\n         
 def main(x: int) -> int:\n    y = "é" + x\n    return y
 def main(x: int) -> int:\n    é = 1\n    return é + "a"
 def main(x: int) -> int:\n\tif x:\n\t\treturn x + "a"\n\treturn x
+def main(x: int) -> int:\n    return x\n    y = nope + 1
+def main(x: int) -> int:\n    return x\n    return nope
+def main(x: int) -> int:\n    if False:\n        return nope\n    return x
+def main(x: int) -> int:\n    if True:\n        return x\n    else:\n        return nope
+def main(x: int) -> int:\n    if x > 0:\n        return x\n        y = nope\n    return x
+def main(x: int) -> int:\n    while True:\n        return x\n    return nope
+def main(x: int) -> int:\n    for i in range(3):\n        break\n        later = nope\n    return x
+def main(x: int) -> int:\n    return x\n    z = later\n    later = 1
+def main(x: int) -> int:\n    while False:\n        x = nope\n    return x
+def main(x: int) -> int:\n    return x\n    def g() -> int:\n        return nope\n    return g()
+def main(x: int) -> int:\n    return x\n    if nope:\n        pass
+def main(x: int) -> int:\n    return x\n    return x + "a"
+def main(x: int) -> None:\n    return\n    nope(x)
+def main(q: qubit @ owned) -> None:\n    discard(q)\n    return\n    h(nope)
 '''
 
 PROBES = [PRE + "@guppy\n" + line.replace("\\n", "\n").replace("\\t", "\t") + "\n" for line in _P.strip().split("\n")]
